@@ -433,6 +433,78 @@ class LatentRebuild(Case):
         return res
 
 
+class NestedHeadMutation(Case):
+    """a head mutation invoked the way Mutations.architecture_mutate does it - through the NETWORK, by its nested name
+    ("head_net.add_node") - on StochasticActor (whose head is an EvolvableWrapper around the MLP), DeterministicActor and
+    QNetwork: the advertised change reaches the head's MLP, and the network records the method applied"""
+    functions = (EvolvableMLP.add_node, EvolvableMLP.remove_node)
+    stubs = ("np.random of agilerl.modules.mlp -> arbitrary draws", "the head MLP's recreate_network = recorder in the symbolic modes (its width is a proxy); real rebuild + forward in replay/validation")
+    assumptions = ("min_mlp_nodes <= width <= max_mlp_nodes, min < max, numb_new_nodes >= 1",)
+
+    def __init__(self, kind, method):
+        self.kind, self.method = kind, method
+        self.name = f"nested-head-{kind}-{method}"
+        self.site = f"{kind}/head_net.{method}"
+        self.bounds = {"network": kind, "method": f"head_net.{method}", "symbolic": "head width, min/max nodes, numb_new_nodes"}
+        self._tmpl = None
+
+    def build(self, h=4, mn=2, mx=16):
+        from agilerl.networks.actors import StochasticActor, DeterministicActor
+        osp = spaces.Box(-1, 1, (2,))
+        cfg = dict(encoder_config={"hidden_size": [3]}, head_config={"hidden_size": [h], "min_mlp_nodes": mn, "max_mlp_nodes": mx}, latent_dim=3, min_latent_dim=1, max_latent_dim=8)
+        if self.kind == "StochasticActor":
+            return StochasticActor(osp, spaces.Discrete(2), **cfg)
+        if self.kind == "DeterministicActor":
+            return DeterministicActor(osp, spaces.Box(-1, 1, (2,)), **cfg)
+        return QNetwork(osp, spaces.Discrete(2), **cfg)
+
+    def run(self, v):
+        h, mn, mx, n = v.int("width"), v.int("min_nodes"), v.int("max_nodes"), v.int("numb_new_nodes")
+        v.assume(conj(mn >= 1, mn < mx, h >= mn, h <= mx, n >= 1))
+        torch.manual_seed(2)
+        try:
+            if v.mode == "real":
+                net = self.build(h, mn, mx)
+            else:
+                if self._tmpl is None:
+                    self._tmpl = self.build()
+                net = self._tmpl
+        except AssertionError as ex:
+            raise AssumptionFailed(f"constructor rejects the configuration: {ex}")
+        mlp = getattr(net.head_net, "wrapped", net.head_net)
+        require(mlp, "hidden_size", "min_mlp_nodes", "max_mlp_nodes", "recreate_network")
+        if v.mode != "real":
+            mlp.hidden_size = [h]
+            mlp.min_mlp_nodes, mlp.max_mlp_nodes = mn, mx
+            rec = Counting()
+        else:
+            rec = Counting(mlp.recreate_network)
+        net.last_mutation_attr = None
+        with patched((mlp_mod, "np", ShimNumpy({"random": Rng(v)})), (mlp, "recreate_network", rec)):
+            getattr(net, f"head_net.{self.method}")(hidden_layer=0, numb_new_nodes=n)
+        post = list(mlp.hidden_size)
+        add = self.method == "add_node"
+        new = h + n if add else h - n
+        inside = lt(new, mx) if add else gt(new, mn)
+        res = [Ob("head-keeps-one-layer", len(post) == 1)]
+        if len(post) != 1:
+            return res
+        res.append(Ob("applied-exactly-when-strictly-inside-the-bound", disj(neg(inside), eq(post[0], new)), site=self.site + "/effect"))
+        res.append(Ob("width-is-old-or-advertised-new", disj(eq(post[0], h), eq(post[0], new)), site=self.site + "/effect"))
+        res.append(Ob("width-within-bounds", conj(post[0] >= mn, post[0] <= mx), site=self.site + "/bounds"))
+        res.append(Ob("the-head-is-rebuilt-exactly-once", len(rec.calls) == 1, site=self.site + "/effect"))
+        res.append(Ob("the-network-records-the-method-applied", net.last_mutation_attr == f"head_net.{self.method}", site=self.site + "/bookkeeping"))
+        res.append(Ob("network-rebuilds-and-maps-a-batch-to-finite-outputs-of-its-shape", forward_ok_first(net, torch.zeros(3, 2)) if v.mode == "real" else True, site=self.site + "/rebuild"))
+        return res
+
+
+def forward_ok_first(module, x):
+    with torch.no_grad():
+        y = module(x)
+    y = y[0] if isinstance(y, tuple) else y
+    return y.shape[0] == x.shape[0] and bool(torch.isfinite(y.float()).all())
+
+
 def cases(tier):
     cs = []
     for meth in ("add_layer", "remove_layer"):
@@ -446,6 +518,8 @@ def cases(tier):
     cs += [LatentMutation("add_latent_node", True), LatentMutation("add_latent_node", False), LatentMutation("remove_latent_node", True),
            LatentMutation("remove_latent_node", False)]
     cs += [LatentRebuild("add_latent_node", True), LatentRebuild("remove_latent_node", True), LatentRebuild("add_latent_node", False)]
+    cs += [NestedHeadMutation("StochasticActor", "add_node"), NestedHeadMutation("StochasticActor", "remove_node"), NestedHeadMutation("DeterministicActor", "add_node"),
+           NestedHeadMutation("QNetwork", "remove_node")]
     if tier == "thorough":
         for meth in ("add_layer", "remove_layer", "add_node", "remove_node"):
             cs += [MLPMutation(meth, 3, False)]
